@@ -216,9 +216,18 @@ ORACLES = {
             _oracle('the() with a unique / no / several solutions (threshold conditions)', 150, 2000, kind='the', n=4, distinct_sizes=True),
             _oracle('the() over and_(or_(..), .., ..), evaluated twice', 100, 1500, kind='the', n=4, distinct_sizes=True, shape='and_or'),
             _oracle('the() over equal-looking distinct instances', 60, 600, kind='the', equal_instances=True),
-            _oracle('the() evaluated inside a symbolic block', 60, 600, kind='the', inside='query')],
-    'C08': [_oracle('interleavings of blocks and result iterators', 150, 3000, kind='modes', steps=10)],
-    'C09': [_oracle('predicates evaluated under interleaved modes', 150, 3000, kind='modes', steps=8, predicates=True),
+            _oracle('the() evaluated inside a symbolic block', 60, 600, kind='the', inside='query'),
+            _oracle('the(set_of(...)): none / one / several solutions', 100, 1500, kind='the', n=4, distinct_sizes=True, setof=True),
+            _oracle('the() with predicates, inside a rule block', 60, 800, kind='the', inside='rule', vocab=['pred', 'cmp'], n=4,
+                    distinct_sizes=True),
+            _oracle('the() with predicates, inside a query block', 60, 800, kind='the', inside='query', vocab=['pred', 'cmp'], n=4,
+                    distinct_sizes=True)],
+    'C08': [_oracle('interleavings of blocks, expression blocks, operator uses, constructions and result iterators', 200, 3000,
+                    kind='modes', steps=10, setof=True)],
+    'C09': [_oracle('predicates evaluated under interleaved modes (entity and set_of queries)', 200, 3000, kind='modes', steps=8,
+                    predicates=True, setof=True),
+            _oracle('the(set_of) with predicates, inside a rule block', 60, 800, kind='the', inside='rule', vocab=['pred', 'cmp'], n=4,
+                    distinct_sizes=True, setof=True),
             _oracle('the() with predicates, inside a rule block', 80, 800, kind='the', inside='rule', vocab=['pred', 'cmp'], n=4, distinct_sizes=True),
             _oracle('the() with predicates, inside a query block', 80, 800, kind='the', inside='query', vocab=['pred', 'cmp'], n=4, distinct_sizes=True),
             _oracle('an() with predicates and attribute conditions', 100, 1500, nvars=1, depth=2, vocab=['pred', 'cmp', 'name'], neg=True),
